@@ -98,7 +98,7 @@ func Parenthesize(f *ast.File) {
 				n.X = &ast.ParenExpr{Lparen: n.X.Pos(), X: n.X, Rparen: n.X.End()}
 			}
 		case *ast.ChanType:
-			if v, ok := n.Value.(*ast.ChanType); ok && v.Dir == ast.RECV && n.Dir != ast.RECV {
+			if v, ok := n.Value.(*ast.ChanType); ok && v.Dir == ast.RECV && n.Dir == ast.SEND|ast.RECV {
 				n.Value = &ast.ParenExpr{Lparen: v.Pos(), X: v, Rparen: v.End()}
 			}
 		}
